@@ -105,6 +105,10 @@ class RegisterData:
             r.previous.next = r.next
         if r.next is not None:
             r.next.previous = r.previous
+        if r is self.__root and r.next is not None:
+            self.__root = r.next
+        if r is self.__head and r.previous is not None:
+            self.__head = r.previous
 
     def of_type(self, t: Type[T]) -> Generator[T, None, None]:
         """
